@@ -123,3 +123,97 @@ func vpH_C15_blocking() {
 	}
 	cancel()
 }
+
+// ---- thread harnesses: every interleaving of a few concurrent operations (scheduling choices enumerated by the
+// engine, sync.Cond modelled as the runtime implements it) ------------------------------------------------------------
+
+// pop_cancel: Pop on an empty queue || cancellation of its context: whatever the interleaving, Pop returns.
+func vpHC_C15_pop_cancel() {
+	q := newRpcQueue(1)
+	ctx, cancel := context.WithCancel(context.Background())
+	var err error
+	tp := vpGo(func() { _, err = q.Pop(ctx) })
+	tc := vpGo(func() { cancel() })
+	vpWait()
+	vpAssert(vpThreadDone(tc), "cancel returns")
+	popDone := vpThreadDone(tp)
+	vpAssert(popDone, "Pop returns promptly with a cancellation error once its context is cancelled (no lost wake-up)")
+	if popDone {
+		vpAssert(err == ErrQueueCancelled, "a cancelled Pop on an empty queue returns ErrQueueCancelled")
+	}
+	vpCover(popDone, "pop returned")
+	if !vpSymbolic() {
+		q.Close() // release a Pop that is still parked (native run only)
+		vpWait()
+	}
+}
+
+// pop_push: a blocked Pop resumes when data arrives.
+func vpHC_C15_pop_push() {
+	q := newRpcQueue(1)
+	ctx := context.Background()
+	r := &RPC{}
+	var got *RPC
+	var err error
+	tp := vpGo(func() { got, err = q.Pop(ctx) })
+	tq := vpGo(func() { q.Push(r, false) })
+	vpWait()
+	vpAssert(vpThreadDone(tp) && vpThreadDone(tq), "a blocked Pop resumes when data arrives")
+	vpAssert(err == nil && got == r && q.queue.Len() == 0, "the popped RPC is the pushed one; nothing is lost or duplicated")
+	vpCover(true, "ran")
+}
+
+// push_pop: blocking pushes on a full queue resume when space arrives; capacity is never exceeded.
+func vpHC_C15_push_pop() {
+	q := newRpcQueue(1)
+	ctx := context.Background()
+	a, b, c := &RPC{}, &RPC{}, &RPC{}
+	q.Push(a, false) // full
+	t1 := vpGo(func() { q.Push(b, true) })
+	t2 := vpGo(func() { q.Push(c, true) })
+	var got *RPC
+	t3 := vpGo(func() { got, _ = q.Pop(ctx) })
+	vpWait()
+	vpAssert(vpThreadDone(t3) && got == a, "Pop hands out the oldest RPC")
+	vpAssert(q.queue.Len() <= 1, "the queue never holds more than its capacity, also when several blocked pushers are woken")
+	vpAssert(vpThreadDone(t1) != vpThreadDone(t2), "exactly one of the two blocked pushers gets the freed slot; the other keeps waiting")
+	vpCover(vpThreadDone(t1), "first pusher won")
+	if !vpSymbolic() { // drain so that the parked pusher can finish (native run only)
+		q.Pop(ctx)
+		vpWait()
+		q.Pop(ctx)
+	}
+}
+
+// two_pushers_two_pops: with capacity 2, two blocked pushers and two Pops, both pushers complete (every freed slot wakes a pusher).
+func vpHC_C15_two_pushers() {
+	q := newRpcQueue(2)
+	ctx := context.Background()
+	q.Push(&RPC{}, false)
+	q.Push(&RPC{}, false) // full
+	t1 := vpGo(func() { q.Push(&RPC{}, true) })
+	t2 := vpGo(func() { q.Push(&RPC{}, true) })
+	t3 := vpGo(func() { q.Pop(ctx); q.Pop(ctx) })
+	vpWait()
+	vpAssert(vpThreadDone(t3), "the Pops return")
+	vpAssert(vpThreadDone(t1) && vpThreadDone(t2), "a blocked push resumes when space arrives: two freed slots release both pushers")
+	vpAssert(q.queue.Len() == 2, "nothing lost")
+	vpCover(true, "ran")
+	if !vpSymbolic() {
+		q.Pop(ctx)
+		q.Pop(ctx)
+		vpWait()
+	}
+}
+
+// pop_close: a blocked Pop returns ErrQueueClosed once the queue is closed.
+func vpHC_C15_pop_close() {
+	q := newRpcQueue(1)
+	var err error
+	tp := vpGo(func() { _, err = q.Pop(context.Background()) })
+	tc := vpGo(func() { q.Close() })
+	vpWait()
+	vpAssert(vpThreadDone(tp) && vpThreadDone(tc), "Pop returns once the queue is closed")
+	vpAssert(err == ErrQueueClosed, "Pop on a closed queue returns ErrQueueClosed")
+	vpCover(true, "ran")
+}
